@@ -27,6 +27,10 @@ CHECKS = {
             "exhaustive short octet strings and bracket sequences + Hypothesis tag lists / mutated encodings, differential against an independent clause-20.2.1 framer and a bracket reference model",
             "Tag lists over the class x number x length-escape cross product are encoded and compared with an independent framer, decoded back and compared field by field; every octet string <=2 (<=3 thorough) and Hypothesis random/mutated strings must yield a list or InvalidTag (watchdog for non-termination), agree with the reference framer tag by tag (over-read / mis-framing shows as disagreement) and be a re-encode fixpoint; TagList.get_context and Any.decode are compared with a reference bracket model on all symbol sequences <=5 (<=6 thorough) and generated nestings to depth 4.",
             "Trusts bpverif/ref/asn1.py; framing-neutral leniencies (LVT 6/7 without class bit, boolean LVT>1, number 255, non-canonical length forms) are shared by reference and library; closing tags with a different number than their opening tag accept either verdict."),
+    "C01": ("exploration",
+            "boundary-table enumeration + Hypothesis value generation over all 112 concrete primitive classes, differential against an independent clause-20.2 reference encoder/decoder plus library round trip",
+            "For every concrete Atomic subclass, values at every length boundary, every enumeration name and number, every bit-string length 0..64, IEEE bit patterns, boundary object identifiers and Hypothesis-generated values are encoded in both tagging modes (all 255 context numbers for one value per class); the octets must equal an independent canonical encoder, decode back to an equal value through the library and through the reference decoder; unrepresentable inputs must be refused or round-trip exactly.",
+            "Trusts bpverif/ref/asn1.py and struct's IEEE float32 rounding as the definition of the Real domain; inputs the constructors alias or mask by documented design (Date year 2155, ObjectIdentifier ints >= 2^32, empty name lists) are excluded."),
 }
 
 NOT_YET = {}
